@@ -2,41 +2,95 @@
 import vf
 
 META = {
-    "claimed": False,
-    "text": "work in progress",
-    "note": "",
-    "technique": "Coq proof + model/implementation correspondence",
+    "claimed": True,
+    "text": ("PARTIAL. Proved in Coq for all graphs/plans/strategies (heap-level executor model of C02, subgraph operators as operators that read "
+             "their captures): a value is moved into a subgraph's capture environment (by-value capture) only if it has NO remaining use - no "
+             "later operator reads it, it is not a requested output (C24_by_value_captures_have_no_later_use); the executor invariants are "
+             "re-established after every step including subgraph operators, and under them every value still needed is found in a buffer "
+             "holding exactly its value in the inlined/naive evaluation (C24_step_preserves_invariants, C24_parent_values_preserved); a subgraph "
+             "run whose capture environment is presented as run inputs (by-reference = borrowed, by-value = owned) returns the naive evaluation "
+             "of the subgraph for every strategy (C24_subgraph_refines_inline_partial; the full statement through the CaptureEnv lookup chain "
+             "is C24_subgraph_refines_inline_statement, NOT proved); today's Loop and the inlined meaning produce the same outputs except for "
+             "a loop with scan outputs that never iterates (C24_loop_outputs_agree_outside_F19, C24_F19_refuted). "
+             "Exercised, not proved: the real If/Loop operators and CaptureEnv on generated nested graphs (depth <= 4, captures of parent and "
+             "grandparent values by value and by reference, captured values used again afterwards, in-place overwriting test operators inside "
+             "branches and bodies, carried dependencies, scan outputs, zero-iteration loops, owned/borrowed inputs, pool on/off) compared with "
+             "the inlined evaluation SubgraphModel.eval_top inside Coq. KNOWN FINDING F19: a zero-iteration Loop with scan outputs makes "
+             "Graph::run fail with OutputMismatch (pinned by unit test test_loop_condition_initially_false)."),
+    "note": ("Trusted: Coq kernel; correspondence sample; Loop/If kernels' tensor handling (concatenation of scan outputs, scalar conversion) "
+             "and the CaptureEnv name lookup are modelled by the inlined evaluator and only compared by correspondence; optimisation on/off is "
+             "not exercised (the optimizer is C01's subject; the hook builds graphs directly)."),
+    "technique": "Coq proof (executor invariants, parent side of capture bookkeeping) + model/implementation correspondence against an inlined evaluator",
 }
 GROUP = "exec"
 REQ = ("From RV Require Import Prelude.\nFrom Planner Require Import Graph.\n"
        "From Exec Require Import ExecModel ModelTestOps SubgraphModel.\nOpen Scope N_scope.\n"
        "Notation case := case24 (only parsing).")
-THEOREMS = []
+THEOREMS = ["C24_by_value_captures_have_no_later_use", "C24_step_preserves_invariants", "C24_parent_values_preserved",
+            "C24_subgraph_refines_inline_partial", "C24_loop_outputs_agree_outside_F19", "C24_F19_refuted",
+            "C24_prop_ok_reflect", "C24_nonvacuous"]
+
+
+def one_pass(ctx, name, cases, agree, prop_ok, show, shard, fn_name, classify=None):
+    """Evaluate the informational model-agreement function and the property oracle in ONE Coq pass
+    over all cases (case terms are large), then hand only the cases that fail the oracle to
+    ctx.correspond (which alarms, classifies known findings and writes replay files).
+    Returns the indices on which the implementation deviates from the deterministic model."""
+    import hashlib
+    dis, pf, err = ctx.coq_eval_cases(GROUP, REQ, [c["term"] for c in cases], agree, prop_ok, shard, tag="all")
+    if err:
+        raise vf.CheckerBroken("model evaluation failed for %s: %s" % (name, err))
+    bad = set(pf)
+    for i, c in enumerate(cases):
+        if i in bad:
+            continue  # accounted for by ctx.correspond below
+        ctx.evals += 1
+        t = c.get("tag", "")
+        ctx.hist[t] = ctx.hist.get(t, 0) + 1
+        if not t.startswith("trivial"):
+            ctx.distinct.add(hashlib.sha1(c["input"].encode()).hexdigest())
+    for c in cases[:3]:
+        if len(ctx.samples) < 12:
+            ctx.samples.append({"check": name, "input": c["input"][:400], "tag": c.get("tag", "")})
+    ctx.log("correspondence %s: %d cases, %d fail the property oracle, %d deviate from the deterministic model"
+            % (name, len(cases), len(pf), len(dis)))
+    if pf:
+        ctx.correspond(name, GROUP, REQ, [cases[i] for i in pf], classify=classify, agree=prop_ok, prop_ok=prop_ok,
+                       show=show, shard=shard, fn_name=fn_name)
+    else:
+        ctx.corr.append({"name": name, "cases": len(cases), "disagree": 0, "property_failures": 0})
+    return dis
 
 
 def main(ctx):
+    ctx.rule = ("seeded random graphs of test operators with real If / Loop operators nested to depth <= 4 (2 in most cases): 1..3 captures per "
+                "subgraph from parent or grandparent, in-place capable overwriting operators inside bodies, loops with trip counts 0..3, optional "
+                "initial condition, 0..2 carried values, 0..2 scan outputs; 4 runs per case (borrowed / owned / mixed, pool on/off); "
+                "non-trivial = the graph contains an If or a Loop")
+    ctx.trusted += ["If/Loop kernels and CaptureEnv lookup: compared with the inlined evaluator by correspondence, not proved"]
+    ctx.assumptions += ["node ids of generated graphs are in topological order; names are unique across graph and subgraphs (ONNX SSA)"]
     ctx.audit(GROUP, "planner")
     failed = ctx.prove(GROUP, "Props_C24", THEOREMS) if THEOREMS else []
     ok, out = ctx.make(GROUP, ["SubgraphModel.vo"])
     if not ok:
         raise vf.CheckerBroken("SubgraphModel.v does not compile: " + out[-500:])
     bindir = ctx.harness(GROUP, profile="release", bins=["c24"])
-    cases = ctx.gen_exec(bindir, "c24", ctx.n(300, 6000), inputs=ctx.replay_inputs())
+    cases = ctx.gen_exec(bindir, "c24", ctx.n(240, 4800), inputs=ctx.replay_inputs())
     terms = [c["term"] for c in cases]
-    # which failing cases belong to the known class F19 (decided inside Coq, from the model)
-    notf19, _, err = ctx.coq_eval_cases(GROUP, REQ, terms, "(fun c => negb (f19_class c))", "(fun _ => true)", 40, tag="f19")
+    # pass 1 (informational): which cases are in the known class F19 (decided inside Coq from the
+    # model), which deviate from the model of today's If/Loop
+    notf19, dis, err = ctx.coq_eval_cases(GROUP, REQ, terms, "(fun c => negb (f19_class c))", "agree24", 16, tag="f19")
     if err:
         raise vf.CheckerBroken("f19 classification failed: " + str(err)[:500])
     f19 = set(notf19)
     for i, c in enumerate(cases):
         c["f19"] = i in f19
     ctx.extra["f19_cases"] = len(f19)
-    ctx.correspond("If/Loop-vs-inlined", GROUP, REQ, cases, classify=lambda c: "F19" if c.get("f19") else None,
-                   agree="prop_ok24", prop_ok="prop_ok24", show="show24", shard=40,
-                   fn_name="Exec.SubgraphModel.eval_top (inlined evaluation)")
-    dis, _, err = ctx.coq_eval_cases(GROUP, REQ, terms, "agree24", "prop_ok24", 40, tag="det")
-    ctx.extra["impl_model_disagreements"] = (len(dis) if not err else "evaluation error: " + str(err)[:300])
+    ctx.extra["impl_model_disagreements"] = len(dis)
     if dis:
         ctx.log("note: %d case(s) deviate from the model of today's Loop/If (incl. F19 behaviour); first: %s" % (len(dis), cases[dis[0]]["input"][:300]))
+    # pass 2: the property oracle
+    one_pass(ctx, "If/Loop-vs-inlined", cases, "prop_ok24", "prop_ok24", "show24", 16,
+             "Exec.SubgraphModel.eval_top (inlined evaluation)", classify=lambda c: "F19" if c.get("f19") else None)
     if failed and not ctx.violations:
         ctx.proof_broken(failed, "all correspondence cases of this run")
